@@ -8,9 +8,60 @@ use simple_dns::*;
 use std::borrow::Cow;
 use std::result::Result;
 
+thread_local! {
+    /// How library values are put together from the model (the same value by a different public route):
+    /// bits 0..1: names — 0 from labels, 1 as `<name>.zz.invalid` without `zz.invalid` (Name::without),
+    /// 2 from text where the labels allow it (Name::new_unchecked); bit 2: NSEC windows stored in
+    /// descending order (the writers sort them).
+    static BUILD_VARIANT: std::cell::Cell<u8> = const { std::cell::Cell::new(0) };
+}
+
+/// select the construction route for the values built on this thread until the next call (0 = default)
+pub fn set_build_variant(v: u8) {
+    BUILD_VARIANT.with(|x| x.set(v));
+}
+
+/// resets the construction route when dropped
+pub struct VariantGuard;
+impl Drop for VariantGuard {
+    fn drop(&mut self) {
+        set_build_variant(0);
+    }
+}
+pub fn build_variant(v: u8) -> VariantGuard {
+    set_build_variant(v);
+    VariantGuard
+}
+
 pub fn lname<'a>(n: &'a AName) -> Name<'a> {
     let labels: Vec<Label<'a>> = n.0.iter().map(|l| Label::new_unchecked(&l.0[..])).collect();
-    Name::new_with_labels(&labels)
+    let plain = Name::new_with_labels(&labels);
+    match BUILD_VARIANT.with(|x| x.get()) & 3 {
+        1 if !labels.is_empty() => {
+            let tail = [Label::new_unchecked(&b"zz"[..]), Label::new_unchecked(&b"invalid"[..])];
+            let mut long = labels.clone();
+            long.extend(tail.iter().cloned());
+            let long = Name::new_with_labels(&long);
+            let tail = Name::new_with_labels(&tail);
+            match long.without(&tail).map(|x| x.into_owned()) {
+                // (a route that yields a different name is not used: what `without` returns is not the claim here)
+                Some(o) if oname(&o) == *n => o,
+                _ => plain,
+            }
+        }
+        2 => {
+            let textual = !n.0.is_empty() && n.0.iter().all(|l| !l.0.is_empty() && l.0.iter().all(|b| b.is_ascii_graphic() && *b != b'.'));
+            if textual {
+                let text: String = n.0.iter().map(|l| String::from_utf8_lossy(&l.0).to_string()).collect::<Vec<_>>().join(".");
+                let o = Name::new_unchecked(&text).into_owned();
+                if oname(&o) == *n {
+                    return o;
+                }
+            }
+            plain
+        }
+        _ => plain,
+    }
 }
 
 pub fn oname(n: &Name) -> AName {
@@ -423,16 +474,17 @@ pub fn build_rdata<'a>(rd: &'a ARData) -> Result<RData<'a>, String> {
                 Some(Val::Windows(v)) => v,
                 o => return Err(format!("expected Windows, got {:?}", o)),
             };
-            RData::NSEC(NSEC {
-                next_name,
-                type_bit_maps: w
-                    .iter()
-                    .map(|(w, b)| TypeBitMap {
-                        window_block: *w,
-                        bitmap: cow(b),
-                    })
-                    .collect(),
-            })
+            let mut type_bit_maps: Vec<TypeBitMap> = w
+                .iter()
+                .map(|(w, b)| TypeBitMap {
+                    window_block: *w,
+                    bitmap: cow(b),
+                })
+                .collect();
+            if BUILD_VARIANT.with(|x| x.get()) & 4 != 0 {
+                type_bit_maps.reverse();
+            }
+            RData::NSEC(NSEC { next_name, type_bit_maps })
         }
         48 => RData::DNSKEY(DNSKEY {
             flags: i.u16()?,
